@@ -87,6 +87,7 @@ fn run<E: Elem>(t: &Trace, record: bool) -> RunResult {
     let mut cx = Cx::new(t.prop);
     let mut w = World::<E>::new();
     let mut violation: Option<Viol> = None;
+    let mut prev_kind: u64 = 999;
     for (i, op) in t.ops.iter().enumerate() {
         ledger::op_begin(i as u32, op.kind as u32, &op.faults);
         cx.ops_executed += 1;
@@ -101,7 +102,14 @@ fn run<E: Elem>(t: &Trace, record: bool) -> RunResult {
             LAST_OP_FAILS_FIRED.store(alloc::alloc_failures_fired(), std::sync::atomic::Ordering::Relaxed);
             alloc::disarm_alloc_failure();
         }
-        let drop_fired = ledger::fired().iter().any(|f| f.0 == Seam::Drop);
+        let fired_now = ledger::fired();
+        let drop_fired = fired_now.iter().any(|f| f.0 == Seam::Drop);
+        // generic coverage: which fault fired at which ordinal in which operation; operation bigrams
+        for f in &fired_now {
+            cx.cov(&[2000, op.kind as u64, f.0 as u64, f.1 as u64]);
+        }
+        cx.cov(&[1000, prev_kind, op.kind as u64]);
+        prev_kind = op.kind as u64;
         ledger::op_end(i as u32, cx.op_panicked as u32);
         w.walk(&mut cx, drop_fired);
         check_alloc_flags(&cx);
